@@ -163,6 +163,17 @@ def generate(rng, tier):
             cases.append(mkreq(s, [c, d - c, len(s) - d], "cut3", dh=dh, g=g))
         cases.append(mkreq(s, [1] * len(s), "cut1", dh=dh, g=g))
 
+    # ---- the same bytes with bare-LF line ends (the code accepts them): every cut position, segmentation-blind oracle
+    for g, tail in shorts[:5]:
+        s = print_head(*g) + tail
+        dh = None if any(n.lower() == b"host" for n, _, _ in g[3]) else b"default.host"
+        for v in (s.replace(b"\r\n", b"\n"), s.replace(b"\r\n", b"\n", 1), s.replace(b"\r\n\r\n", b"\n\r\n"), s.replace(b"\r\n\r\n", b"\r\n\n")):
+            if v == s:
+                continue
+            for c in range(1, len(v), 1 if not quick else 2):
+                cases.append(mkreq(v, [c, len(v) - c], "cut-lf", dh=dh))
+            cases.append(mkreq(v, [1] * len(v), "cut-lf", dh=dh))
+
     # ---- grammar requests with random multi-cut schedules ------------------------------------------------------------
     nrand = 500 if quick else 30000
     for _ in range(nrand):
@@ -395,8 +406,26 @@ def classify(c, i):
 
 
 def directed(rng, mismatches):
-    # more of everything around the constants of the reader, with the specification as oracle
-    return generate(rng, "quick")
+    """after a broken proof / correspondence: short requests x every cut, every burst size around the limit, bare-LF variants"""
+    cases = []
+    g = (b"POST", b"/d?q", True, [hline(b"Host", 0, b"h"), hline(b"Content-Length", 2, b"4"), hline(b"X", 1, b"")])
+    s = print_head(*g) + b"bodyNEXT"
+    for a in range(1, len(s)):
+        for b in range(a + 1, len(s), 3):
+            cases.append(mkreq(s, [a, b - a, len(s)], "directed-cut", g=g))
+    for variant in (s.replace(b"\r\n", b"\n"), s.replace(b"\r\n", b"\n", 1), s.replace(b": ", b":"), s.replace(b"\r\n\r\n", b"\n\r\n")):
+        for a in range(1, len(variant)):
+            cases.append(mkreq(variant, [a, len(variant)], "directed-variant"))
+    junk = b"GET / HTTP/1.1\r\nHost: a\r\nx: " + b"a" * 40000
+    for t in range(16000, 16390, 7):
+        cases.append(mkreq(junk, [t, 100000, 100000, 100000], "directed-limit"))
+        hl = padded_head(b"GET", b"/t", [hline(b"Host", 1, b"a")], t)
+        gg = (b"GET", b"/t", True, hl)
+        cases.append(mkreq(print_head(*gg) + b"zz", [t - 3, 100000], "directed-limit", g=gg))
+    for cl in range(0, 70):
+        for el in (0, cl // 2, cl):
+            cases.append(mkbody(body_bytes(el), cl, BIG_LIMIT, body_bytes(cl + 40)[el:], [max(1, cl - el - 30), 30, 1000], "directed-body"))
+    return cases + generate(rng, "quick")
 
 
 def describe(c):
@@ -431,13 +460,27 @@ ASSUMPTIONS = [
 TRUSTED = ["modelled: async/src/lib.rs read_more/read_headers/contains_two_newlines/read::request, utils/src/parse.rs headers/version, "
            "utils/src/lib.rs valid_method/valid_version/get_body_length_request, src/application.rs Http1Body::read_to_bytes over "
            "async/src/lib.rs read_to_end_or_max and tokio's Take"]
-LEVEL_TEXT = ("Machine-checked Coq theorems over a byte-level model of the HTTP/1 request reader (read loop with buffer growth, request-line state "
-              "machine, header parser, URI assembly, body length, body reader) driven by an arbitrary read schedule: parse(print r) = r for the "
-              "request grammar for every schedule, growth function and trailing bytes; results independent of the schedule; no blank line within "
-              "the limit or the delivered bytes => error; no panic on any byte stream. The model is tied to the code on every run by a differential "
-              "run of the real functions over a scripted AsyncRead.")
-LEVEL_NOTE = ("Trusted: Coq kernel, extraction (reduced by the in-kernel recheck sample), the hand transcription validated by the differential run, "
-              "the http/bytes/tokio crates below the modelled functions. No axioms.")
+LEVEL_TEXT = ("Machine-checked Coq theorems (9, no axioms) over a byte-level executable model of the HTTP/1 request reader (read loop with buffer "
+              "growth through an arbitrary growth function, request-line state machine, header parser with its absolute indices, URI assembly, "
+              "body length, body reader) driven by an arbitrary read schedule (list of burst sizes): parse_print - for every request of the grammar "
+              "(token method of <= 7 letters, target without SP/CR/LF, HTTP/1.0|1.1, header lines name ':' SP^k value CRLF for every k >= 0, names "
+              "unique up to case, visible-ASCII values) followed by any bytes, every schedule delivering head + body, every growth function and "
+              "every end mode, the reader returns exactly method, path, query, version, header list, authority and the first min(content-length, "
+              "limit) bytes after the blank line; parse_print_head - the same for the parser alone with the bytes after the head returned "
+              "unchanged; schedule_independent - two schedules/growth functions/end modes give the same request and body; segmentation_blind - "
+              "for EVERY byte stream the observable result (fields + body outcome, or the error class) equals serve_spec of the delivered bytes, a "
+              "function without schedule or capacities (so also malformed and bare-LF heads are read independently of the segmentation); "
+              "head_limit / stalled_head - no blank line within max_len (16384) bytes resp. within the delivered bytes => an error, for every "
+              "schedule incl. 0-byte reads and every growth function whatsoever; body_exact / body_any_schedule - read_to_bytes returns exactly "
+              "min(content-length, limit) bytes and leaves the rest of the stream (the next request) on the connection, short bodies end as "
+              "EOF-prefix / TimedOut / I/O error. All by induction over the stream / the schedule with invariants on the reader state, none by "
+              "enumeration. The model is tied to the code on every run by a differential run of the real functions over a scripted AsyncRead.")
+LEVEL_NOTE = ("Trusted: Coq kernel, extraction (reduced by the in-kernel recheck sample), the hand transcription of the anchored Rust functions as "
+              "validated by the differential run (exact equality incl. early bytes and bytes consumed), the http/bytes/tokio crates below the "
+              "modelled functions (http's Uri/HeaderName/HeaderValue/Method checks are transcribed, parse_print takes the Uri verdict as the "
+              "hypothesis expect .. = Some ..). Not covered: optional whitespace other than SP after the colon (a TAB stays in the value) and "
+              "trailing SP (kept in the value); requests whose names repeat; Http1Body as raw AsyncRead (only read_to_bytes). Seven defects were "
+              "found and repaired (fixed: lines in known-findings.txt); the theorems are about the repaired code.")
 TECHNIQUE = "Coq proof (model satisfies the specification for all requests, schedules and growth functions) + differential correspondence model vs. implementation"
 EXHAUSTIVE = False
 
